@@ -41,17 +41,19 @@ type universe struct {
 
 // upstream is the ground truth of one generated upstream.
 type upstream struct {
-	idx   int
-	host  string
-	uni   universe
-	mask  int // 1 addresses | 2 domains | 4 groups
-	av    string
-	dv    string
-	gv    string
-	rules oracle.Rules
-	spec  sut.UpstreamSpec
-	rare  string           // rare-configuration stream only: "<kind>:<family>" of the rule kind configured in a rare way
-	flow  *sut.LoginResult // a started login flow (state + CSRF cookie) of this upstream; owned by the upstream's worker
+	idx        int
+	host       string
+	uni        universe
+	mask       int // 1 addresses | 2 domains | 4 groups
+	av         string
+	dv         string
+	gv         string
+	rules      oracle.Rules
+	spec       sut.UpstreamSpec
+	rare       string           // rare-configuration stream only: "<kind>:<family>" of the rule kind configured in a rare way
+	sigTag     string           // list-shape stream only: class tag appended to the signatures that name an input class
+	fixedOneIn int              // when > 0: one /profile answer in fixedOneIn is fixed instead of faithful (default one in eight)
+	flow       *sut.LoginResult // a started login flow (state + CSRF cookie) of this upstream; owned by the upstream's worker
 }
 
 const (
@@ -213,7 +215,7 @@ var coarse = map[string]string{
 	"multi-at-dom": "several-at", "multi-at-mid": "several-at", "addr-multi-at": "several-at",
 	"empty-local": "empty-local-part", "empty": "empty",
 	"lookalike-prefix": "look-alike", "lookalike-suffix": "look-alike", "lookalike-sub": "look-alike", "no-at": "look-alike", "addr-near": "look-alike", "trailing-dot": "look-alike",
-	"whitespace": "white-space", "empty-domain": "empty-domain-part", "unicode-local": "non-ascii", "unicode-domain": "non-ascii", "long": "long", "unrelated": "unrelated", "star-literal": "star-literal",
+	"whitespace": "white-space", "empty-domain": "empty-domain-part", "shape-listed": "listed-entry", "shape-outsider": "near-listed-entry", "unicode-local": "non-ascii", "unicode-domain": "non-ascii", "long": "long", "unrelated": "unrelated", "star-literal": "star-literal",
 }
 
 var lookalike = map[string]bool{"lookalike-prefix": true, "lookalike-suffix": true, "lookalike-sub": true, "no-at": true, "addr-near": true, "multi-at-mid": true}
